@@ -3,6 +3,10 @@
 
 Obligations: coq/Props/C18.v (models coq/Model/History.v, coq/Model/Shim.v).
 
+The four defects this check found (H2 transforms dict rewritten in place, H3 Cube.inflate and H4
+Cube.augment_response editing the caller's response, H5 JSON-text / envelope summary response of an
+augmented CubeSet) are REPAIRED in /repo; their streams stay in the generator and must be pure.
+
 Legs of the check
  (a) RELATIONAL ORACLE on the implementation alone, straight from the property text.  A world is
      a set of caller-owned argument objects (responses as dict / {"value": ...} envelope / JSON
@@ -12,13 +16,18 @@ Legs of the check
      introspection) of Cube, CubeSet, _Slice, _Strand, _Nub is executed; every read must equal the
      same read on a fresh object built from pristine deep copies (arrays NaN-aware and exact,
      exceptions by type).  A failing schedule is shrunk to a minimal read sequence and classified
-     statically against the hypotheses H2 / H3 / H4 of Props/C18.v (open findings).
+     statically against the repaired defect classes H2 / H3 / H4 (a regression hint only).
      Forms: the same object built from dict / envelope / JSON text responses must read alike.
- (b) CORRESPONDENCE of the mutation model: the caller's dicts after the implementation ran vs the
-     prediction of Model/History.v + Model/Shim.v evaluated inside Coq: transforms dicts
-     (arun_dict = shim_xf through histories, also for H2-violating sequences), the response's
-     array dimension dicts (shim_dim_dict), CubeSet inflation (rrun / rrun_state), augment_response
-     (augment / a_run).
+ (b) NO MUTATION, checked directly on the implementation after EVERY schedule: the caller's
+     transforms dicts are deep-equal (type-aware) to their pristine copies, the caller's responses
+     are deep-equal to theirs apart from the subvar_alias / datetime_value annotation of dimension
+     elements.  A failing schedule is shrunk as well.
+ (c) CORRESPONDENCE of the model evaluated inside Coq (Model/History.v + Model/Shim.v): the caller's
+     transforms dict after a history vs arun_dict (= the pristine dict, C18_dicts_unchanged) and the
+     translated dict every partition's dimension USES vs arun_shims = shim_xf of the PRISTINE dict
+     (also for one dict used with two different dimensions: the former H2 stream), the annotation of
+     the response's array dimension dicts (shim_dim_dict), CubeSet inflation (rrun / rrun_state),
+     augment_response (augment / a_run / a_run_state).
 """
 import copy
 import json
@@ -352,7 +361,7 @@ def w_single(rng, k):
 
 
 def w_same_dims(rng, k):
-    """two responses with the same dimensions, ONE transforms dict for both (H2 holds)"""
+    """two responses with the same dimensions, ONE transforms dict for both"""
     resp, _t = r_any(rng, k)
     r2 = same_dims_other_data(rng, resp)
     world = {"responses": [resp, r2], "forms": [rand_form(rng), rand_form(rng)],
@@ -380,8 +389,6 @@ def w_tabbook(rng, k):
             if t is not None:
                 transforms.append(t)
             ts.append(len(transforms) - 1)
-    if not own and kind == "ca":
-        own = True
     world = {"responses": rs, "forms": forms, "transforms": transforms, "objects": [],
              "scenario": "tabbook-" + kind}
     world["objects"].append(set_spec(rng, range(len(rs)), ts))
@@ -390,13 +397,8 @@ def w_tabbook(rng, k):
     for _ in range(rng.randint(0, 2)):
         i = rng.randrange(len(rs))
         world["objects"].append(cube_spec(rng, i, ts[i]))
-    if kind == "ca" or not own:
-        # stand-alone cubes on a CA-as-0th tabbook use the transforms with another dimension
-        # mapping; keep them on their own dicts so that H2 holds
-        for o in world["objects"]:
-            if o["kind"] == "cube":
-                world["transforms"].append(copy.deepcopy(world["transforms"][o["t"]]))
-                o["t"] = len(world["transforms"]) - 1
+    # (stand-alone cubes on a CA-as-0th tabbook use the SAME transforms dict with another
+    # dimension mapping: since the repair of H2 that is as pure as anything else)
     return world
 
 
@@ -405,18 +407,10 @@ def w_numeric_set(rng, k, violate=False):
     n = len(rs)
     extra = numeric_responses(rng, 1)
     rs = rs + extra
-    if violate:
-        forms = ["dict" if rng.random() < 0.8 else rand_form(rng) for _ in rs]
-    else:
-        # all responses of a numeric-measure set are edited together (dicts) or not at all (text)
-        f1 = rng.choice(["dict", "dict", "dict", "envelope", "text"])
-        f2 = rng.choice(["dict", "dict", "envelope", "text"])
-        forms = [f1 if i < n else f2 for i in range(len(rs))]
-        if f1 in ("dict", "envelope") and rng.random() < 0.3:
-            forms = [rng.choice(["dict", "envelope"]) if i < n else forms[i] for i in range(len(rs))]
+    forms = ["dict" if rng.random() < (0.8 if violate else 0.6) else rand_form(rng) for _ in rs]
     transforms = [{} if rng.random() < 0.5 else {"rows_dimension": {"name": "N"}} for _ in rs]
     world = {"responses": rs, "forms": forms, "transforms": transforms, "objects": [],
-             "scenario": "numeric-set" + ("-violating" if violate else "")}
+             "scenario": "numeric-set" + ("-shared(former-H3)" if violate else "")}
     world["objects"].append(set_spec(rng, range(n), range(n)))
     if violate:
         forms[0] = "dict"
@@ -433,9 +427,8 @@ def w_numeric_set(rng, k, violate=False):
         if rng.random() < 0.7:
             world["objects"].append(set_spec(rng, range(n), range(n)))
         if rng.random() < 0.5:
-            # cubes on the other responses only (a numeric set's responses belong to it alone)
             world["objects"].append(cube_spec(rng, rng.choice([n, n + 1]), None))
-            world["objects"].append(cube_spec(rng, rng.choice([n, n + 1]), None))
+            world["objects"].append(cube_spec(rng, rng.randrange(len(rs)), None))
         else:
             # a second numeric-measure set on its own responses, possibly twice
             world["objects"].append(set_spec(rng, [n, n + 1], [n, n + 1]))
@@ -452,7 +445,7 @@ def w_augment(rng, k, violate=False):
     forms = ["dict"] + [("dict" if (violate or rng.random() < 0.7) else rng.choice(["envelope", "text"]))
                         for _ in rs[1:]]
     world = {"responses": rs, "forms": forms, "transforms": [{} for _ in rs], "objects": [],
-             "scenario": "augment" + ("-violating" if violate else "")}
+             "scenario": "augment" + ("-shared(former-H4)" if violate else "")}
     idx = list(range(len(rs)))
     world["objects"].append(set_spec(rng, idx, idx))
     if violate:
@@ -465,7 +458,7 @@ def w_augment(rng, k, violate=False):
 
 
 def w_h2(rng, k):
-    """ONE transforms dict for two cubes whose array dimensions differ (violates H2)"""
+    """ONE transforms dict for two cubes whose array dimensions differ (the former H2 stream)"""
     layout = rng.choice(["mr_x_cat", "cat_x_mr", "ca", "mr"])
     a = C19.gen_dim_case(rng, k, layout=layout, n_items=rng.randint(2, 4), plain=True)
     b = C19.gen_dim_case(rng, k + 1, layout=layout, n_items=rng.randint(2, 4), plain=True)
@@ -481,13 +474,91 @@ def w_h2(rng, k):
                           {"order": {"type": "explicit", "element_ids": [x]}},
                           {"elements": {x: {"name": "Renamed"}}}])}
     world = {"responses": [a["response"], b["response"]], "forms": ["dict", "dict"], "transforms": [t],
-             "objects": [cube_spec(rng, 0, 0), cube_spec(rng, 1, 0)], "scenario": "h2-violating"}
+             "objects": [cube_spec(rng, 0, 0), cube_spec(rng, 1, 0)], "scenario": "shared-dict-two-dims(former-H2)"}
     return world
 
 
-SCENARIOS = [(w_single, 38), (w_same_dims, 12), (w_tabbook, 22), (w_numeric_set, 8), (w_augment, 6),
-             (lambda rng, k: w_numeric_set(rng, k, True), 4), (lambda rng, k: w_augment(rng, k, True), 3),
-             (w_h2, 4)]
+def cat_response(rng, row_ids, col_ids, n_missing=1):
+    rowv = gen.make_cat(rng, "rowv", n_valid=len(row_ids), n_missing=n_missing, ids=list(row_ids) + [-1] * n_missing,
+                        missing_anywhere=False, numeric="all")
+    colv = gen.make_cat(rng, "colv", n_valid=len(col_ids), n_missing=0, ids=list(col_ids), numeric="all")
+    sv = gen.Survey([rowv, colv], rng.randint(10, 30), rng)
+    return gen.cube_response(sv, ["rowv", "colv"]), rowv, colv
+
+
+def w_shared_insertions(rng, k):
+    """ONE transforms dict with subtotal insertions (ids absent / partly present) for cubes whose
+    dimensions have DIFFERENT sets of valid categories: an insertion that is stale for one cube
+    (refers only to categories it does not have) is valid for another"""
+    n_small = rng.randint(2, 4)
+    n_big = n_small + rng.randint(1, 3)
+    small, big = list(range(1, n_small + 1)), list(range(1, n_big + 1))
+    cols = list(range(1, rng.randint(2, 3) + 1))
+    r_small, _v, _c = cat_response(rng, small, cols, n_missing=rng.choice([0, 1]))
+    r_big, _v, _c = cat_response(rng, big, cols, n_missing=rng.choice([0, 1]))
+    only_big = [c for c in big if c not in small]
+    ins = []
+    with_ids = rng.choice([False, False, "some", True])
+    for j in range(rng.randint(2, 4)):
+        r = rng.random()
+        pool = only_big if r < 0.4 else small if r < 0.8 else big
+        args = rng.sample(pool, rng.randint(1, min(2, len(pool))))
+        d = {"function": "subtotal", "name": "ins%d" % j,
+             "anchor": rng.choice(["top", "bottom", rng.choice(big)]), "args": args}
+        if rng.random() < 0.3:
+            d["kwargs"] = {"positive": args}
+        if with_ids is True or (with_ids == "some" and rng.random() < 0.5):
+            d["id"] = 10 + j
+        ins.append(d)
+    rng.shuffle(ins)
+    t = {"rows_dimension": {"insertions": ins}}
+    if rng.random() < 0.3:
+        t["columns_dimension"] = {"insertions": [{"function": "subtotal", "name": "cins", "anchor": "bottom",
+                                                  "args": cols[:2]}]}
+    rs = [r_small, r_big] if rng.random() < 0.6 else [r_big, r_small]
+    world = {"responses": rs, "forms": [rand_form(rng), rand_form(rng)], "transforms": [t],
+             "objects": [cube_spec(rng, 0, 0), cube_spec(rng, 1, 0)], "scenario": "shared-insertions"}
+    if rng.random() < 0.4:
+        world["objects"].append(cube_spec(rng, rng.choice([0, 1]), 0))
+    return world
+
+
+def w_diff_subtotals(rng, k):
+    """a CAT x CAT slice (or CAT strand) with DIFFERENCE subtotals (kwargs.negative) on rows and / or
+    columns, from the transforms or from the view; usually with a population"""
+    rows = list(range(1, rng.randint(3, 5) + 1))
+    cols = list(range(1, rng.randint(2, 4) + 1))
+    resp, rowv, colv = cat_response(rng, rows, cols, n_missing=rng.choice([0, 1]))
+
+    def diff(ids, j):
+        pos = rng.sample(ids, rng.randint(1, max(1, len(ids) // 2)))
+        rest = [c for c in ids if c not in pos] or ids
+        neg = rng.sample(rest, rng.randint(1, min(2, len(rest))))
+        return {"function": "subtotal", "id": j + 1, "name": "diff%d" % j,
+                "anchor": rng.choice(["top", "bottom", rng.choice(ids)]), "args": pos,
+                "kwargs": {"positive": pos, "negative": neg}}
+
+    t = {}
+    where = rng.choice(["rows", "columns", "both"])
+    if where in ("rows", "both"):
+        t["rows_dimension"] = {"insertions": [diff(rows, j) for j in range(rng.randint(1, 2))]}
+        if rng.random() < 0.4:
+            t["rows_dimension"]["insertions"].append(
+                {"function": "subtotal", "id": 7, "name": "plain", "anchor": "top", "args": rows[:2]})
+    if where in ("columns", "both"):
+        t["columns_dimension"] = {"insertions": [diff(cols, j) for j in range(rng.randint(1, 2))]}
+    world = {"responses": [resp], "forms": [rand_form(rng)], "transforms": [t], "objects": [],
+             "scenario": "difference-subtotals"}
+    for _ in range(rng.randint(1, 2)):
+        spec = cube_spec(rng, 0, 0)
+        spec["population"] = rng.choice([9000, 1000, 75, None])
+        world["objects"].append(spec)
+    return world
+
+
+SCENARIOS = [(w_single, 36), (w_same_dims, 11), (w_tabbook, 21), (w_numeric_set, 7), (w_augment, 5),
+             (lambda rng, k: w_numeric_set(rng, k, True), 5), (lambda rng, k: w_augment(rng, k, True), 4),
+             (w_h2, 5), (w_shared_insertions, 5), (w_diff_subtotals, 5)]
 
 
 def gen_world(rng, k):
@@ -534,6 +605,17 @@ def gen_schedule(rng, world, probes, n_reads):
         op = ["read", k, list(target), name, list(args)]
         sched.append(op)
         history.append(op)
+    if history and rng.random() < 0.5:
+        # every distinct read made so far once more, after all the others, in another order: finds a
+        # read that edits the value another one cached, whatever the pair
+        seen, again = set(), []
+        for op in history:
+            key = json.dumps(op)
+            if key not in seen:
+                seen.add(key)
+                again.append(copy.deepcopy(op))
+        rng.shuffle(again)
+        sched += again
     for k in range(n_obj):
         if k not in made:
             sched.append(["new", k])
@@ -582,7 +664,7 @@ def touch_ops(world, probes):
 
 
 # ------------------------------------------------------------------------------------
-# (b) correspondence of the mutation model
+# (c) correspondence of the model (Model/History.v, Model/Shim.v)
 # ------------------------------------------------------------------------------------
 
 
@@ -602,22 +684,36 @@ def model_ok_adim(d):
     return True
 
 
-def g_ops_uses(gd, n):
-    ops = []
-    for i in range(n):
-        ops.append("New %s 0%%nat" % gd)
-        ops.append("Read %s %s" % (core.g_nat(i), ["PElems", "POrder", "PTop"][i % 3]))
-    return core.g_list(ops)
+strip_shim_fields = E.strip_shim_fields
 
 
-def strip_shim_fields(resp):
-    """response with the fields the shim adds removed (to compare everything else)"""
-    r = copy.deepcopy(resp)
-    for d in r.get("result", {}).get("dimensions", []):
-        for el in d.get("type", {}).get("elements", []) or []:
-            el.pop("subvar_alias", None)
-            el.pop("datetime_value", None)
-    return r
+def used_dict(obj, key):
+    """the translated transforms dict the dimension `key` of partition 0 of a Cube USES
+    (Dimension._dimension_transforms_dict of the partition's own Dimension object - private, there
+    is no public way to observe it): ("ok", dict) | ("exc", ExceptionTypeName) | ("missing-attr", msg)"""
+    try:
+        part = obj.partitions[0]
+        dims = part._dimensions
+    except AttributeError as e:
+        return ("missing-attr", str(e))
+    except Exception as e:  # noqa
+        return ("exc", type(e).__name__)
+    dim = dims[0] if (key == "rows_dimension" or len(dims) == 1) else dims[1]
+    if not hasattr(type(dim), "_dimension_transforms_dict"):
+        return ("missing-attr", "Dimension._dimension_transforms_dict")
+    r = impl.guarded(lambda: dim._dimension_transforms_dict)
+    return ("ok", r[1]) if r[0] == "ok" else ("exc", r[1])
+
+
+def rest_of(tdim):
+    """the part of a dimension-transforms dict the translation does not touch"""
+    out = {kk: vv for kk, vv in (tdim or {}).items() if kk not in ("elements", "order")}
+    order = (tdim or {}).get("order")
+    if isinstance(order, dict):
+        out["order"] = {kk: vv for kk, vv in order.items() if kk not in ("element_ids", "fixed")}
+        if isinstance(order.get("fixed"), dict):
+            out["order.fixed"] = {kk: vv for kk, vv in order["fixed"].items() if kk not in ("top", "bottom")}
+    return out
 
 
 class Corr(object):
@@ -632,21 +728,25 @@ class Corr(object):
         self.checks.append((kind, data))
 
 
+def canon_used(u, pay):
+    return ["ok", U.canon_xf(u[1], pay)] if u[0] == "ok" else list(u)
+
+
 def corr_world(rep, corr, world, probes, schedule):
-    """after schedule + touch-all: the caller's dicts vs the model (H2/H3/H4-respecting worlds)"""
-    if world["scenario"] not in ("single", "same-dims"):
-        return
+    """after schedule + touch-all, for every stand-alone Cube of the world: the caller's dicts and the
+    translated dict its partition uses vs the model"""
     full = schedule + touch_ops(world, probes)
-    _out, R, T, _objs = E.run_shared(world, full)
-    # which transforms dicts / responses were really used by a constructed cube
+    _out, R, T, objs = E.run_shared(world, full)
     for k, spec in enumerate(world["objects"]):
+        if spec["kind"] != "cube" or k not in objs:
+            continue
         ri, tj = spec["r"], spec.get("t")
         resp0 = world["responses"][ri]
         roles = dim_roles(resp0)
         if not any(cls in ("_Slice", "_Strand") for _t, cls in probes[k]):
             continue
         part_cls = [cls for _t, cls in probes[k] if cls in ("_Slice", "_Strand")][0]
-        # (b1) transforms dict
+        # (c1) transforms dict: the caller's afterwards, the one the dimension uses
         if tj is not None:
             for key in ("rows_dimension", "columns_dimension"):
                 if key == "columns_dimension" and part_cls == "_Strand":
@@ -656,26 +756,23 @@ def corr_world(rep, corr, world, probes, schedule):
                 if role is None or role[0] != "array" or not isinstance(t0, dict):
                     continue
                 if not model_ok_tdim(t0) or not model_ok_adim(role[1]):
-                    rep.dist("b1-skipped-outside-model")
+                    rep.dist("c1-skipped-outside-model")
                     continue
                 pay = U.Payloads()
                 gd = U.g_adim(role[1])
-                term = "r_xf (arun_dict (dicts_of [%s]) %s 0%%nat)" % (U.g_xf(t0, pay), g_ops_uses(gd, 2))
-                corr.add(term, "b1", {"world": world, "schedule": schedule, "key": key, "tj": tj,
-                                      "impl": U.canon_xf(T[tj].get(key), pay),
-                                      "rest_same": {kk: vv for kk, vv in T[tj].get(key, {}).items()
-                                                    if kk not in ("elements", "order")} ==
-                                                   {kk: vv for kk, vv in t0.items()
-                                                    if kk not in ("elements", "order")}})
-        # (b2) the response's dimension dicts
+                gts = "(dicts_of [%s])" % U.g_xf(t0, pay)
+                gops = "[New %s 0%%nat; Read 0%%nat PElems; Read 0%%nat POrder]" % gd
+                term = "(r_shims (arun_shims %s %s) ++ r_xf (arun_dict %s %s 0%%nat))%%list" % (gts, gops, gts, gops)
+                u = used_dict(objs[k], key)
+                corr.add(term, "b1", {"world": world, "schedule": schedule, "key": key, "tj": tj, "obj": k,
+                                      "impl_caller": U.canon_xf(T[tj].get(key), pay),
+                                      "impl_used": [canon_used(u, pay)],
+                                      "rest_same": u[0] != "ok" or E.same(rest_of(u[1]), rest_of(t0))})
+        # (c2) the response's dimension dicts: the annotation that stays in place
         form = world["forms"][ri]
         if form not in ("dict", "envelope"):
             continue
         after = R[ri] if form == "dict" else R[ri]["value"]
-        if strip_shim_fields(after) != resp0:
-            rep.violation("impl-vs-model", {"world": world, "schedule": schedule, "leg": "response"},
-                          {"what": "response changed beyond subvar_alias / datetime_value", "response": ri},
-                          {"what": "response-dict", "cause": "other"})
         for di, d in enumerate(resp0["result"]["dimensions"]):
             t = d["type"]
             if t["class"] != "enum":
@@ -685,8 +782,8 @@ def corr_world(rep, corr, world, probes, schedule):
             if sub == "datetime":
                 exp = [el["value"] if not isinstance(el["value"], dict) else None for el in t["elements"]]
                 got = [el.get("datetime_value") for el in els_after]
-                rep.dist("b2-datetime-dim")
-                if got != exp:
+                rep.dist("c2-datetime-dim")
+                if got != exp and any(g is not None for g in got):
                     rep.violation("impl-vs-model", {"world": world, "schedule": schedule, "leg": "response"},
                                   {"what": "datetime_value fields", "impl": got, "expected": exp},
                                   {"what": "response-dict", "cause": "other"})
@@ -694,13 +791,16 @@ def corr_world(rep, corr, world, probes, schedule):
                 ad = U.adim_of_dimension_dict(d, False)
                 if not model_ok_adim(ad):
                     continue
+                got = [el.get("subvar_alias", U.ABSENT) for el in els_after]
+                if all(g == U.ABSENT for g in got):
+                    continue            # this dimension was never evaluated by the history
                 els = core.g_list(["(%s, None)" % U.g_item(it) for it in ad["items"]])
                 corr.add("r_idents (map build_element_id (shim_dim_dict %s))" % els, "b2",
-                         {"world": world, "schedule": schedule, "impl": [el.get("subvar_alias", U.ABSENT) for el in els_after]})
+                         {"world": world, "schedule": schedule, "impl": got})
 
 
 def corr_h2(rep, corr, rng, k):
-    """H2-violating sequence: cube A fully read, then cube B on the same transforms dict"""
+    """the former H2 stream: cube A fully read, then cube B on the same transforms dict"""
     corr_h2_case(corr, w_h2(rng, k))
 
 
@@ -708,15 +808,19 @@ def corr_h2_case(corr, world):
     probes = {i: E.probe_targets(world, i) for i in range(2)}
     sched = [["new", 0]] + [op for op in touch_ops(world, probes) if op[1] == 0] + [["new", 1]] + \
             [op for op in touch_ops(world, probes) if op[1] == 1]
-    _out, R, T, _o = E.run_shared(world, sched)
+    _out, R, T, objs = E.run_shared(world, sched)
     key = list(world["transforms"][0].keys())[0]
     da = dim_roles(world["responses"][0])[key][1]
     db = dim_roles(world["responses"][1])[key][1]
     pay = U.Payloads()
     t0 = world["transforms"][0][key]
-    term = "r_xf (arun_dict (dicts_of [%s]) [New %s 0%%nat; Read 0%%nat PElems; New %s 0%%nat; Read 1%%nat PElems] 0%%nat)" % (
-        U.g_xf(t0, pay), U.g_adim(da), U.g_adim(db))
-    corr.add(term, "b3", {"world": world, "schedule": sched, "impl": U.canon_xf(T[0].get(key), pay)})
+    gts = "(dicts_of [%s])" % U.g_xf(t0, pay)
+    gops = "[New %s 0%%nat; Read 0%%nat PElems; New %s 0%%nat; Read 1%%nat PElems]" % (U.g_adim(da), U.g_adim(db))
+    term = "(r_shims (arun_shims %s %s) ++ r_xf (arun_dict %s %s 0%%nat))%%list" % (gts, gops, gts, gops)
+    used = [canon_used(used_dict(objs[i], key), pay) for i in range(2)]
+    corr.add(term, "b3", {"world": world, "schedule": sched, "impl_caller": U.canon_xf(T[0].get(key), pay),
+                          "impl_used": used, "rest_same": True,
+                          "args_changed": E.args_changed(world, R, T)})
 
 
 KIND_NAME = {0: "_Nub", 1: "_Strand", 2: "_Slice"}
@@ -762,7 +866,8 @@ def corr_rops_case(corr, rs, ops):
     g_r0 = "(ndims_of %s)" % core.g_list([core.g_nat(len(r["result"]["dimensions"])) for r in rs])
     term = "(r_pkinds (rrun %s %s) ++ r_natl (map (rrun_state %s %s) (seq 0%%nat %d%%nat)))%%list" % (
         g_r0, g_ops, g_r0, g_ops, n)
-    corr.add(term, "b4", {"responses": rs, "ops": ops, "impl_kinds": got, "impl_ndims": nd_after})
+    corr.add(term, "b4", {"responses": rs, "ops": ops, "impl_kinds": got, "impl_ndims": nd_after,
+                          "unchanged": all(E.same(a, E.strip_shim_fields(b)) for a, b in zip(rs, R))})
 
 
 def g_aresp(r):
@@ -781,30 +886,33 @@ def corr_augment(rep, corr, rng, k):
 
 
 def corr_augment_case(corr, s, f, ops):
+    """CubeSet([S, F]) / Cube(F) sequences on the SAME response objects: the counts (valid elements,
+    public API) each operation reports vs a_run; the caller's responses afterwards vs a_run_state"""
     S, F = copy.deepcopy(s), copy.deepcopy(f)
-    states = []
+    outs = []
     for op in ops:
         if op == "set":
-            r = impl.guarded(lambda: len(impl.CubeSet([S, F], [{}, {}], None, 0).partition_sets))
-            states.append(list(F["result"]["counts"]) if r[0] == "ok" else None)
+            r = impl.guarded(lambda: [int(x) for x in
+                                      impl.CubeSet([S, F], [{}, {}], None, 0).partition_sets[0][1].counts])
         else:
-            states.append(list(F["result"]["counts"]))
-    els_after = [(el["id"], el["value"] if isinstance(el.get("value"), (int, str)) else None)
-                 for el in F["result"]["dimensions"][0]["type"]["elements"]]
+            r = impl.guarded(lambda: [int(x) for x in impl.Cube(F).partitions[0].counts])
+        outs.append(r[1] if r[0] == "ok" else None)
     g_ops = core.g_list(["ASet" if o == "set" else "ACube" for o in ops])
-    n_sets = sum(1 for o in ops if o == "set")
-    term = ("(r_lst (r_option r_zs) (a_run %s %s %s) ++ "
-            "r_aresp (fold_left (fun f _ => augment_left f %s) (repeat tt %s) %s))%%list") % (
-        g_aresp(s), g_aresp(f), g_ops, g_aresp(s), core.g_nat(n_sets), g_aresp(f))
-    corr.add(term, "b5", {"summary": s, "filter": f, "ops": ops, "impl_states": states,
-                          "impl_after": {"counts": list(F["result"]["counts"]), "elements": els_after},
-                          "had_set": "set" in ops})
+    gs, gf = g_aresp(s), g_aresp(f)
+    term = ("(r_lst (r_option r_zs) (a_run %s %s %s) ++ r_aresp (a_run_state %s %s %s) ++ "
+            "r_option r_aresp (augment %s %s))%%list") % (gs, gf, g_ops, gs, gf, g_ops, gf, gs)
+    corr.add(term, "b5", {"summary": s, "filter": f, "ops": ops, "impl_outs": outs,
+                          "impl_after": {"counts": list(F["result"]["counts"]),
+                                         "elements": [(el["id"], el["value"] if isinstance(el.get("value"), (int, str)) else None)
+                                                      for el in F["result"]["dimensions"][0]["type"]["elements"]]},
+                          "unchanged": E.same(s, S) and E.same(f, F)})
 
 
 def dec_b(kind, toks):
     d = U.Dec(toks)
     if kind in ("b1", "b3"):
-        return U.model_xf_canon(d.xf())
+        shims = d.list(lambda: d.opt(d.xf))
+        return [None if x is None else U.model_xf_canon(x) for x in shims], U.model_xf_canon(d.xf())
     if kind == "b2":
         return d.idents()
     if kind == "b4":
@@ -812,10 +920,16 @@ def dec_b(kind, toks):
         nds = d.list(d.Z)
         return kinds, nds
     if kind == "b5":
+        aresp = lambda: (d.list(d.Z), d.list(lambda: (d.ident(), d.opt(d.ident))))  # noqa: E731
         runs = d.list(lambda: d.opt(lambda: d.list(d.Z)))
-        aug = (d.list(d.Z), d.list(lambda: (d.ident(), d.opt(d.ident))))
-        return runs, aug
+        state = aresp()
+        aug = d.opt(aresp)
+        return runs, state, aug
     raise ValueError(kind)
+
+
+def valid_counts(counts, elems):
+    return [int(c) for c, e in zip(counts, elems) if e[1] is not None]
 
 
 def finish_corr(rep, corr):
@@ -827,10 +941,28 @@ def finish_corr(rep, corr):
         rep.cov["evaluations"] += 1
         rep.dist("corr-" + kind)
         if kind in ("b1", "b3"):
-            if data["impl"] != model or (kind == "b1" and not data["rest_same"]):
-                rep.violation("impl-vs-model", {"world": data["world"], "schedule": data["schedule"], "leg": kind},
-                              {"what": "caller's transforms dict after the history", "impl": data["impl"],
-                               "model": model}, {"what": "transforms-dict", "cause": "other"})
+            shims, caller = model
+            case = {"world": data["world"], "schedule": data["schedule"], "leg": kind}
+            if any(u[0] == "missing-attr" for u in data["impl_used"]):
+                rep.violation("harness-cannot-observe", case,
+                              {"what": "Dimension._dimension_transforms_dict is gone", "impl": data["impl_used"]},
+                              {"what": "transforms-dict", "cause": "other"}, failing_input=False)
+                continue
+            if data["impl_caller"] != caller or data.get("args_changed"):
+                rep.violation("impl-vs-model", case,
+                              {"what": "caller's transforms dict after the history (model: the pristine one)",
+                               "impl": data["impl_caller"], "model": caller, "changed": data.get("args_changed")},
+                              {"what": "transforms-dict", "cause": "other"})
+            exp = [["ok", x] if x is not None else None for x in shims]
+            got = data["impl_used"]
+            bad = len(exp) != len(got) or any(
+                (e is None and g[0] != "exc") or (e is not None and g != e) for e, g in zip(exp, got))
+            if bad or not data["rest_same"]:
+                rep.violation("impl-vs-model", case,
+                              {"what": "translated transforms dict the partition's dimension uses "
+                                       "(model: shim_xf of the PRISTINE dict)",
+                               "impl": got, "model": exp, "untranslated_part_same": data["rest_same"]},
+                              {"what": "used-transforms-dict", "cause": "other"})
         elif kind == "b2":
             if data["impl"] != model:
                 rep.violation("impl-vs-model", {"world": data["world"], "schedule": data["schedule"], "leg": kind},
@@ -839,26 +971,34 @@ def finish_corr(rep, corr):
         elif kind == "b4":
             kinds, nds = model
             mk = [[KIND_NAME[x] for x in l] for l in kinds]
-            if mk != data["impl_kinds"] or nds != data["impl_ndims"]:
+            if mk != data["impl_kinds"] or nds != data["impl_ndims"] or not data["unchanged"]:
                 rep.violation("impl-vs-model", {"leg": "b4", "responses": data["responses"], "ops": data["ops"]},
-                              {"what": "partition kinds / number of dimension dicts after CubeSet histories",
-                               "impl": [data["impl_kinds"], data["impl_ndims"]], "model": [mk, nds]},
+                              {"what": "partition kinds / the caller's responses after CubeSet histories "
+                                       "(model: unchanged)",
+                               "impl": [data["impl_kinds"], data["impl_ndims"], data["unchanged"]],
+                               "model": [mk, nds, True]},
                               {"what": "inflate", "cause": "other"})
         elif kind == "b5":
-            runs, aug = model
-            ok = True
-            for op, st, m in zip(data["ops"], data["impl_states"], runs):
-                if (st is None) != (m is None) or (st is not None and [int(x) for x in st] != m):
+            runs, state, aug = model
+            f_elems = state[1]
+            ok = data["unchanged"]
+            for op, got, m in zip(data["ops"], data["impl_outs"], runs):
+                if (got is None) != (m is None):
                     ok = False
-            if ok:
-                if [int(x) for x in data["impl_after"]["counts"]] != aug[0] or \
-                        [tuple(e) for e in data["impl_after"]["elements"]] != [tuple(e) for e in aug[1]]:
-                    ok = False
+                elif got is not None:
+                    elems = f_elems if (op == "cube" or aug is None) else aug[1]
+                    if got != valid_counts(m, elems):
+                        ok = False
+            if [int(x) for x in data["impl_after"]["counts"]] != state[0] or \
+                    [tuple(e) for e in data["impl_after"]["elements"]] != [tuple(e) for e in state[1]]:
+                ok = False
             if not ok:
                 rep.violation("impl-vs-model", {"leg": "b5", "summary": data["summary"], "filter": data["filter"],
                                                 "ops": data["ops"]},
-                              {"what": "augment_response: caller's filter response after the history",
-                               "impl": [data["impl_states"], data["impl_after"]], "model": [runs, aug]},
+                              {"what": "augment_response: counts reported by each CubeSet / Cube and the "
+                                       "caller's responses afterwards (model: unchanged)",
+                               "impl": [data["impl_outs"], data["impl_after"], data["unchanged"]],
+                               "model": [runs, state, aug]},
                               {"what": "augment", "cause": "other"})
     return secs
 
@@ -917,7 +1057,7 @@ def check_world(rep, world, rng, n_reads, corr=None, do_forms=False):
         sched = gen_schedule(rng, world, probes, n_reads)
         rep.dist("schedule=random")
     fresh = E.Fresh(world)
-    bad = E.mismatches(world, sched, fresh)
+    bad, changed = E.evaluate(world, sched, fresh)
     n_read_ops = sum(1 for op in sched if op[0] == "read")
     rep.cov["evaluations"] += n_read_ops
     rep.count_case({"w": world, "s": sched}, len(world["objects"]) > 1 or n_read_ops > 5)
@@ -934,10 +1074,20 @@ def check_world(rep, world, rng, n_reads, corr=None, do_forms=False):
         i, got, exp = (mb or bad)[0]
         op = (minimal if mb else sched)[i]
         rep.violation("history-differs", {"world": world, "schedule": minimal if mb else sched, "leg": "history"},
-                      {"read": op, "in_history": got, "on_pristine_copies": exp, "cause": cause,
+                      {"read": op, "in_history": got, "on_pristine_copies": exp, "repaired_class": cause,
                        "minimal_reads": sum(1 for o in minimal if o[0] == "read")},
                       {"cause": cause})
-    elif corr is not None:
+    if changed:
+        minimal = E.shrink_mutation(world, sched)
+        ch = E.mutates(world, minimal) or changed
+        rep.violation("argument-mutated", {"world": world, "schedule": minimal, "leg": "mutation"},
+                      {"what": "a caller-owned argument object is no longer deep-equal to its pristine copy "
+                               "(apart from subvar_alias / datetime_value of dimension elements)",
+                       "changed": [list(c) for c in ch],
+                       "minimal_reads": sum(1 for o in minimal if o[0] == "read")},
+                      {"cause": "argument-mutated", "what": ch[0][0]})
+    rep.dist("mutation-checked", 1)
+    if not bad and not changed and corr is not None:
         corr_world(rep, corr, world, probes, sched)
     if do_forms:
         forms_oracle(rep, world, rng.randrange(len(world["objects"])))
@@ -955,7 +1105,7 @@ def run(tier, seed):
     t0 = time.time()
     for k in range(n_worlds):
         world = gen_world(rng, k)
-        n_reads = rng.choice([6, 12, 25, 40, 60, "sweep", "sweep"])
+        n_reads = rng.choice([6, 12, 25, 40, 60, "sweep", "sweep", "sweep"])
         check_world(rep, world, rng, n_reads, corr=corr, do_forms=(k % 4 == 0))
     t_hist = time.time() - t0
     rng2 = random.Random(seed + 5)
@@ -964,30 +1114,38 @@ def run(tier, seed):
         corr_rops(rep, corr, rng2, k)
         corr_augment(rep, corr, rng2, k)
         corr_augment(rep, corr, rng2, k)
-    # H5 stream: single-filter-column sets passed as text / envelope
+    # the former H5 stream: single-filter-column sets passed as text / envelope
     for k in range(6 if not thorough else 60):
         w = w_augment(rng2, k)
         w["forms"] = ["dict"] * len(w["responses"])
         forms_oracle(rep, w, 0)
     secs = finish_corr(rep, corr)
     # report a shrunk, self-contained failing history first when there is one
-    rep.violations.sort(key=lambda v: (v["kind"] != "history-differs", v["kind"] != "forms-differ"))
+    rep.violations.sort(key=lambda v: (v["kind"] != "history-differs", v["kind"] != "argument-mutated",
+                                       v["kind"] != "forms-differ"))
     rep.cov["rule"] = (
-        "worlds from random.Random(seed): scenario weights single 38 (array 2-D MR/CA/numeric-array layouts of the "
+        "worlds from random.Random(seed): scenario weights single 36 (array 2-D MR/CA/numeric-array layouts of the "
         "C19 generator, 3-D CAT x MR x CAT / MR x CAT x CAT / CAT x CA / CAT x DATETIME x CAT, datetime, MR x MR, "
-        "general CAT/CAT_DATE/MR/CA slices and strands with insertions), same-dims 12 (two responses with equal "
-        "dimensions sharing ONE transforms dict), tabbook 22 (CubeSet over rows + rows x columns, CAT / MR / "
+        "general CAT/CAT_DATE/MR/CA slices and strands with insertions), same-dims 11 (two responses with equal "
+        "dimensions sharing ONE transforms dict), tabbook 21 (CubeSet over rows + rows x columns, CAT / MR / "
         "CA-as-0th rows, own or shared transforms dict, second CubeSet and stand-alone cubes on the same "
-        "responses), numeric-measure set 8 (0-D mean/sum + 1-D, inflated), augment 6 (single-filter-column text "
-        "cubes), and the violating streams H3 4, H4 3, H2 4; transforms reference items in every spelling "
-        "(alias, sub-variable id, element id int/str, position) + ~20% stale + ~6% null ids in lists; response "
-        "forms dict 72% / envelope 14% / text 10% / text envelope 4%; 1-3(+) objects per world constructed from the "
-        "same argument objects, ~70% of them mid-schedule; 2/7 of the schedules are SWEEPS (every public read of "
-        "one partition / object in random order, a few reads of another object, then every read again in another "
-        "order), the others have 6..60 reads, 40% hot properties, 60% "
+        "responses AND the same transforms dicts), numeric-measure set 7 (0-D mean/sum + 1-D, inflated; any mix "
+        "of dict / envelope / text forms), augment 5 (single-filter-column text cubes), the streams of the "
+        "REPAIRED defects - inflated responses reused by a Cube / another CubeSet (former H3) 5, augmented filter "
+        "response reused by a Cube (former H4) 4, ONE transforms dict for two cubes with different array "
+        "dimensions (former H2) 5 -, shared-insertions 5 (ONE transforms dict with subtotal insertions without / "
+        "with some ids for cubes whose dimensions have different valid categories) and difference-subtotals 5 "
+        "(CAT x CAT with difference subtotals on rows / columns, population); transforms reference items in "
+        "every spelling (alias, sub-variable id, element id int/str, position) + ~20% stale + ~6% null ids in "
+        "lists; response forms dict 72% / envelope 14% / text 10% / text envelope 4%; 1-3(+) objects per world "
+        "constructed from the same argument objects, ~70% of them mid-schedule; 3/8 of the schedules are SWEEPS "
+        "(every public read of one partition / object in random order, a few reads of another object, then "
+        "every read again in another order), the others have 6..60 reads, 40% hot properties, 60% "
         "uniform over ALL public properties (introspection) + row_order/column_order/pairwise_significance_*(0), "
-        "15% exact repeats, 3% out-of-range partitions; non-trivial = more than one object or more than 5 reads; "
-        "distinct by content hash")
+        "15% exact repeats, 3% out-of-range partitions, and in half of them every distinct read is made once more "
+        "at the end in another order; after EVERY schedule the caller's transforms dicts and "
+        "responses are compared (deep, type-aware) with their pristine copies; non-trivial = more than one "
+        "object or more than 5 reads; distinct by content hash")
     rep.cov["public_reads_per_class"] = {c: len(v) for c, v in E.READS.items()}
     rep.cov["coq_eval_seconds"] = round(secs, 2)
     rep.cov["history_seconds"] = round(t_hist, 2)
@@ -995,13 +1153,17 @@ def run(tier, seed):
         "pristine copies of the arguments of ONE object preserve the aliasing inside its argument lists (deepcopy)",
         "values are compared exactly (NaN == NaN); objects other than numbers/strings/arrays/containers/enums "
         "by type name only",
-        "classification of a failing history against H2/H3/H4 is static (from the arguments of the objects the "
-        "MINIMAL schedule still constructs)",
+        "classification of a FAILING history against the repaired defect classes H2/H3/H4 is static (from the "
+        "arguments of the objects the MINIMAL schedule still constructs) and only a hint: nothing is exempted",
+        "the translated transforms dict a partition's dimension uses is observed through the private "
+        "Dimension._dimension_transforms_dict (no public way); a missing attribute is reported as "
+        "no-failing-input-found",
     ]
     return rep.finish("proof", ob, trusted_base=core.TRUSTED_BASE_COMMON + [
         "Model/History.v and Model/Shim.v are hand-written; tied to util.py (lazyproperty), dimension.py "
         "(_ElementIdShim), cube.py (Cube.inflate, augment_response, CubeSet._cubes) by this run only",
-        "the relational oracle itself needs no model: it compares the implementation with itself on pristine copies"])
+        "the relational oracle and the no-mutation leg need no model: they compare the implementation with itself "
+        "on pristine copies / the argument objects with their pristine copies"])
 
 
 # ------------------------------------------------------------------------------------
@@ -1020,6 +1182,10 @@ def replay(path):
         bad = E.mismatches(world, sched, E.Fresh(world))
         for i, got, exp in bad[:3]:
             fails.append({"read": sched[i], "in_history": got, "on_pristine_copies": exp})
+    elif leg == "mutation":
+        world, sched = case["world"], case["schedule"]
+        for which, idx, where in E.mutates(world, sched)[:3]:
+            fails.append({"changed": which, "index": idx, "where": where})
     elif leg == "forms":
         world = case["world"]
         n = len(world["responses"])
